@@ -189,36 +189,35 @@ theorem auto_detect_selects_the_only (secs : List Section) (syms : List Symbol) 
 theorem withSym_eq_fault_iff (o : Outcome) (s : Symbol) : withSym o s = .fault ↔ o = .fault := by
   cases o <;> simp [withSym]
 
-/-- a named load panics exactly when the symbol slice or the descriptor slice panics -/
+/-- a named load panics exactly when the symbol slice panics (the repaired descriptor lookup never does) -/
 theorem loadNamed_fault_iff (secs : List Section) (text : Section) (td : Bytes) (syms : List Symbol) (k : String) :
     loadNamed secs text td syms k = .fault ↔
-      (selectKernel secs text.addr td syms k = .err .hiPastCap ∨ selectKernel secs text.addr td syms k = .err .loPastHi ∨
-       ∃ s b, selectKernel secs text.addr td syms k = .ok s b ∧ findV5 secs k syms = .fault) := by
+      (selectKernel secs text.addr td syms k = .err .hiPastCap ∨ selectKernel secs text.addr td syms k = .err .loPastHi) := by
   rw [loadNamed_via_select]
   cases hs : selectKernel secs text.addr td syms k with
   | err e => cases e <;> simp
   | ok s b =>
-    simp only [Sel.ok.injEq, reduceCtorEq, false_or]
+    simp only [reduceCtorEq, or_self, iff_false]
     cases hv : findV5 secs k syms with
     | none =>
-      simp only [withSym_eq_fault_iff, reduceCtorEq, and_false, exists_false, iff_false]
+      simp only [withSym_eq_fault_iff]
       exact fromEntireText_ne_fault b
-    | fault => simp
+    | fault => exact absurd hv (findV5_never_faults secs k syms)
     | found m => simp
 
-/-- the descriptor lookup panics exactly when the first `<k>.kd` symbol of size 64 sits in a
+/-- BEFORE THE REPAIR the descriptor lookup panicked exactly when the first `<k>.kd` symbol of size 64 sits in a
 section named `.rodata` and its offset from the first `.rodata` (uint64 subtraction) is
 within 64 of 2^64, with the wrapped end still inside the data: `kdOffset+64` overflows, passes
 the length check, and the slice has lo > hi.  (`kd_offset_wraps_iff`: that is a symbol 1..64
 bytes *below* the section address, or ≥ 2^64−64 above it.) -/
-theorem findV5_fault_iff (secs : List Section) (k : String) (syms : List Symbol)
+theorem findV5Old_fault_iff (secs : List Section) (k : String) (syms : List Symbol)
     (hv : ∀ s ∈ syms, s.value < U64) :
-    findV5 secs k syms = .fault ↔
+    findV5Old secs k syms = .fault ↔
       ∃ ro rod s sec, findSection secs ".rodata" = some ro ∧ ro.data = some rod ∧
         syms.find? (fun s => s.name == k ++ ".kd" && s.size == 64) = some s ∧ secs[s.shndx]? = some sec ∧
         sec.name = ".rodata" ∧ U64 ≤ wrapSub s.value ro.addr + 64 ∧
         wrapSub s.value ro.addr + 64 - U64 ≤ rod.length := by
-  unfold findV5
+  unfold findV5Old
   cases hro : findSection secs ".rodata" with
   | none => simp
   | some ro =>
@@ -263,11 +262,64 @@ theorem findV5_found (secs : List Section) (k : String) (syms : List Symbol) (ro
     findV5 secs k syms = .found (parseV5KernelDescriptor ((rod.drop (ks.value - ro.addr)).take 64)) := by
   unfold findV5
   simp only [hro, hrd, hks, hsec, hname, beq_self_eq_true, if_true]
-  rw [wrapSub_of_le hlo]
-  have hm : (ks.value - ro.addr + 64) % U64 = ks.value - ro.addr + 64 := Nat.mod_eq_of_lt (by omega)
-  rw [hm, if_pos (by omega), if_pos (by omega)]
+  rw [if_pos hlo, if_pos (by omega)]
   unfold parseV5KernelDescriptor?
   rw [if_neg (by simp only [List.length_take, List.length_drop]; omega)]
 
+/-- the repair changes nothing but the panicking inputs: wherever the old lookup did not
+panic, the repaired one gives the same answer -/
+theorem findV5_eq_old (secs : List Section) (k : String) (syms : List Symbol)
+    (hv : ∀ s ∈ syms, s.value < U64) (ha : ∀ sec ∈ secs, ∀ d, sec.data = some d → sec.addr + d.length < U64)
+    (h : findV5Old secs k syms ≠ .fault) : findV5 secs k syms = findV5Old secs k syms := by
+  unfold findV5 findV5Old at *
+  cases hro : findSection secs ".rodata" with
+  | none => rfl
+  | some ro =>
+    have hrom := (findSection_spec hro).1
+    simp only [hro] at h ⊢
+    cases hrd : ro.data with
+    | none => rfl
+    | some rod =>
+      have hal := ha ro hrom rod hrd
+      simp only [hrd] at h ⊢
+      cases hf : syms.find? (fun s => s.name == k ++ ".kd" && s.size == 64) with
+      | none => rfl
+      | some s =>
+        have hsv := hv s (List.mem_of_find?_eq_some hf)
+        simp only [hf] at h ⊢
+        cases hsec : secs[s.shndx]? with
+        | none => rfl
+        | some sec =>
+          simp only [hsec] at h ⊢
+          by_cases hn : (sec.name == ".rodata") = true
+          · simp only [hn, if_true] at h ⊢
+            unfold wrapSub at h ⊢
+            unfold U64 at *
+            by_cases hle : ro.addr ≤ s.value
+            · simp only [hle, if_true] at h ⊢
+              by_cases hfit : s.value - ro.addr + 64 ≤ rod.length
+              · have hm : (s.value - ro.addr + 64) % 18446744073709551616 = s.value - ro.addr + 64 :=
+                  Nat.mod_eq_of_lt (by omega)
+                rw [hm, if_pos (by omega), if_pos (by omega), if_pos (by omega)]
+              · rw [if_neg (by omega)]
+                by_cases hw : s.value - ro.addr + 64 < 18446744073709551616
+                · have hm : (s.value - ro.addr + 64) % 18446744073709551616 = s.value - ro.addr + 64 :=
+                    Nat.mod_eq_of_lt hw
+                  rw [hm, if_neg (by omega)]
+                · by_cases hh : (s.value - ro.addr + 64) % 18446744073709551616 ≤ rod.length
+                  · rw [if_pos hh, if_neg (by omega)] at h
+                    exact absurd rfl h
+                  · rw [if_neg hh]
+            · simp only [hle, if_false] at h ⊢
+              by_cases hh : (18446744073709551616 - (ro.addr - s.value) + 64) % 18446744073709551616 ≤ rod.length
+              · rw [if_pos hh] at h
+                by_cases h2 : 18446744073709551616 - (ro.addr - s.value) ≤
+                    (18446744073709551616 - (ro.addr - s.value) + 64) % 18446744073709551616
+                · omega
+                · rw [if_neg h2] at h
+                  exact absurd rfl h
+              · rw [if_neg hh]
+          · simp only [hn] at h ⊢
+            rfl
 
 end C13
